@@ -82,6 +82,11 @@ structure Est where
   /-- estimator classes instantiated locally on the fit path -/
   subs : List String
   blind : List String
+  /-- attribute objects that `fit` (re)fits on every path (definite-assignment analysis of the pseudo-attribute `<fit:x>`) -/
+  deepAlways : List String := []
+  /-- attribute objects some fitted attribute of which `fit` reads (`self.x.attr`) at a point where it has not refitted
+      them in the same call -/
+  deepReadsUnfitted : List String := []
 deriving Repr
 
 namespace Est
@@ -200,10 +205,13 @@ def Sem.fit {e : Est} {Inp} (sem : Sem e Inp) (s : Store) (x : Inp) : Store :=
 inductive Op (Inp : Type) where
   | fit (x : Inp)
   | setParam (a : String) (v : Val)
+  /-- a `fit` that raised: it had assigned the attributes `ws` (values `vals`) before the exception -/
+  | fitRaise (x : Inp) (ws : List String) (vals : Store)
 
 def Sem.apply {e : Est} {Inp} (sem : Sem e Inp) (s : Store) : Op Inp → Store
   | .fit x => sem.fit s x
   | .setParam a v => fun b => if b = a then v else s b
+  | .fitRaise _ ws vals => fun b => if b ∈ ws then vals b else s b
 
 def Sem.run {e : Est} {Inp} (sem : Sem e Inp) (s : Store) (ops : List (Op Inp)) : Store :=
   ops.foldl sem.apply s
@@ -216,12 +224,14 @@ def Est.fresh (e : Est) (c0 p : Store) : Store := fun a => if a ∈ e.setable th
 def paramsAfter {Inp} (p : Store) (ops : List (Op Inp)) : Store :=
   ops.foldl (fun q op => match op with
     | .fit _ => q
+    | .fitRaise _ _ _ => q
     | .setParam a v => fun b => if b = a then v else q b) p
 
 /-- a history stays within the description: `set_params` only on setable attributes -/
 def Op.wf {Inp} (e : Est) : Op Inp → Prop
   | .fit _ => True
   | .setParam a _ => a ∈ e.setable
+  | .fitRaise _ ws _ => ∀ a, a ∈ ws → a ∈ e.mayWrite
 
 
 /-- Sequential composition of two descriptions: a call that first does what `e₁` describes (e.g. the `fit` of an
@@ -233,6 +243,151 @@ def Est.seq (e₁ e₂ : Est) : Est :=
     mayWrite := e₁.mayWrite ++ e₂.mayWrite, mustWrite := e₁.mustWrite ++ e₂.mustWrite,
     deep := e₁.deep ++ e₂.deep, logs := e₁.logs ++ e₂.logs, normalised := [],
     rng := e₁.rng ++ e₂.rng, subs := e₁.subs ++ e₂.subs, blind := e₁.blind ++ e₂.blind }
+
+
+/-! ### flattening attribute objects -/
+
+def pre (p a : String) : String := p ++ "." ++ a
+
+/-- the description of an object held in attribute `p`: every attribute renamed `p.attr` -/
+def Est.prefixed (p : String) (e : Est) : Est :=
+  { e with
+    params := e.params.map (pre p), init := e.init.map (fun (a, k) => (pre p a, k)),
+    readsFirst := e.readsFirst.map (pre p), mayWrite := e.mayWrite.map (pre p), mustWrite := e.mustWrite.map (pre p),
+    deep := e.deep.map (fun (a, c) => (pre p a, c)), logs := e.logs.map (pre p),
+    normalised := e.normalised.map (fun (a, c) => (pre p a, c)),
+    deepAlways := e.deepAlways.map (pre p), deepReadsUnfitted := e.deepReadsUnfitted.map (pre p) }
+
+/-- class of the object an attribute holds, when the description knows it -/
+def Est.deepClass (e : Est) (a c : String) : Option String :=
+  match e.kindOf a with
+  | some (.obj c') => some c'
+  | some (.normal c') => some c'
+  | some (.param _) =>
+    (match e.normalised.find? (·.1 == a) with
+     | some (_, c') => some c'
+     | none => if c == "" then none else some c)
+  | _ => none
+
+/-- The *flattened* description of a class: the `fit` of every attribute object of known class becomes a first phase
+    (`Est.seq`) over the object's own attributes, named `attr.x`.
+    * object refitted on every path (`deepAlways`): a full phase; afterwards the estimator may read everything the object
+      has just assigned;
+    * object refitted only on some paths, none of whose fitted attributes is read before a refit in the same call: a
+      phase that may assign nothing; the object's fitted attributes are then internal state that the theorem does not
+      observe (they go to `logs`) and that nothing reads first;
+    * otherwise (`none`): the description language cannot express the class.
+    A parameter object of unknown class is left as it is (its own class carries its obligation: `assumptions`).
+    The idempotent normalisation of a parameter (`normalised`) creates an object whose parameters are constants: it is
+    dropped here. -/
+def Est.flatten (tbl : List Est) : Nat → Est → Option Est
+  | 0, _ => none
+  | fuel+1, e =>
+    e.deep.foldl (fun acc (a, c) =>
+      match acc with
+      | none => none
+      | some outer =>
+        if e.logs.contains a then some outer
+        else match e.deepClass a c with
+          | none => (match e.kindOf a with
+                     | some (.param _) => some outer      -- user-supplied object of unknown class: assumption
+                     | _ => none)
+          | some c' =>
+            match lookup tbl c' with
+            | none => none
+            | some d =>
+              match flatten tbl fuel d with
+              | none => none
+              | some inner =>
+                let ip := inner.prefixed a
+                if e.deepAlways.contains a then
+                  some (ip.seq { outer with readsFirst := outer.readsFirst ++
+                      (ip.mayWrite ++ ip.mustWrite).filter (fun x => !(ip.logs.contains x)) })
+                else if !(e.deepReadsUnfitted.contains a) then
+                  some ({ ip with mustWrite := [], logs := ip.logs ++ ip.mayWrite }.seq outer)
+                else none)
+      (some { e with deep := [], normalised := [] })
+
+def Est.flatOK (tbl : List Est) (fuel : Nat) (e : Est) : Bool :=
+  match e.flatten tbl fuel with
+  | some f => f.coreOK
+  | none => false
+
+/-- the generated obligation of a class: the syntactic conditions (`historyOK`: nothing blind, `coreOK`, random sources
+    of the class and of its helpers, attribute objects of history-independent classes) *and* `coreOK` of the flattened
+    description, which is the hypothesis of `SkNet.C16.history_independent` for the object together with its attribute
+    objects -/
+def Est.staticOK (tbl : List Est) (fuel : Nat) (e : Est) : Bool :=
+  e.historyOK tbl fuel && e.flatOK tbl fuel
+
+def Est.whyNotStatic (tbl : List Est) (fuel : Nat) (e : Est) : String :=
+  if !(e.historyOK tbl fuel) then e.whyNot tbl
+  else match e.flatten tbl fuel with
+    | none => "flatten:attribute-object-not-refitted-before-read"
+    | some f =>
+      if !f.noStale then "flat-stale:" ++ ",".intercalate f.staleAttrs
+      else "flat-reads-own-writes:" ++ ",".intercalate f.unstableReads
+
+
+/-! ### `set_params` on every accepted parameter -/
+
+/-- attributes `Algorithm.set_params` accepts -/
+def Est.acceptedAttrs (e : Est) : List String := e.params.filter e.setParamAccepted
+
+/-- accepted parameters that `__init__` does not store unchanged: canonicalised (`.lower()`), parsed, replaced by an object.
+    `set_params` is a bare `setattr`: it stores the raw value. -/
+def Est.acceptedDerived (e : Est) : List String :=
+  e.acceptedAttrs.filter fun a => match e.kindOf a with
+    | some (.param _) => false
+    | _ => true
+
+/-- the object `__init__` builds when it canonicalises the derived parameters with `canon` -/
+def Est.freshCanon (e : Est) (canon : String → Val → Val) (c0 p : Store) : Store := fun a =>
+  if a ∈ e.setable then p a
+  else if a ∈ e.acceptedDerived then canon a (p a)
+  else c0 a
+
+/-- a history in which `set_params` may touch every accepted parameter -/
+def Op.wfAccepted {Inp} (e : Est) : Op Inp → Prop
+  | .fit _ => True
+  | .setParam a _ => a ∈ e.setable ∨ a ∈ e.acceptedDerived
+  | .fitRaise _ ws _ => ∀ a, a ∈ ws → a ∈ e.mayWrite
+
+/-- the shape of the pinned Louvain parameter `modularity`: stored lower-cased by `__init__`, read by `fit` -/
+def derivedParamShape : Est :=
+  { name := "DerivedParam", params := ["modularity"], init := [("modularity", .derived), ("labels_", .const)],
+    readsFirst := ["modularity"], mayWrite := ["labels_"], mustWrite := ["labels_"], deep := [], logs := [],
+    normalised := [], rng := [], subs := [], blind := [] }
+
+/-! ### what a random draw may depend on -/
+
+/-- The `k`-th draw from a source, given a generator `stream seed k`, the object's attributes, the state `g` of numpy's
+    global generator (part of the caller's input: `np.random.seed`) and `ent`, everything the caller cannot control
+    (operating-system entropy, the C library's `rand()` state, ARPACK's own generator). This is the *meaning* of the
+    kinds the translator assigns. -/
+def Rng.draw (stream : Val → Nat → Val) (s : Store) (g ent : Val) : Rng → Nat → Val
+  | .atFit a, k => stream (s a) k          -- generator created from the seed attribute at each fit
+  | .atInit a, k => stream (s a) k         -- generator object stored in an attribute: its position is that attribute
+  | .fresh _, k => stream 0 k              -- generator created from a constant
+  | .npGlobal _, k => stream g k
+  | .npSeed _, k => stream g k
+  | .cRand _, k => stream ent k
+  | .entropy _, k => stream ent k
+
+/-- an implementation whose randomness comes only through the sources of its description: `wr` / `new` receive the
+    draws (source number, draw number) -/
+structure RSem (e : Est) (Inp : Type) where
+  wr : Store → Inp → (Nat → Nat → Val) → List String
+  new : Store → Inp → (Nat → Nat → Val) → Store
+
+def RSem.draws (e : Est) (stream : Val → Nat → Val) (s : Store) (g ent : Val) : Nat → Nat → Val :=
+  fun i k => match e.rng[i]? with
+    | some r => r.draw stream s g ent k
+    | none => 0
+
+def RSem.fit {e : Est} {Inp} (sem : RSem e Inp) (stream : Val → Nat → Val) (s : Store) (x : Inp) (g ent : Val) : Store :=
+  let d := RSem.draws e stream s g ent
+  fun a => if a ∈ sem.wr s x d then sem.new s x d a else s a
 
 /-! ### a tiny executable instance, for tests and witnesses -/
 
@@ -272,7 +427,9 @@ inductive RsArg where
   | int (seed : Int)
   /-- a `np.random.RandomState` instance -/
   | inst (g : Gen)
-  /-- anything else (`np.int64`, `bool`, `float`, `np.random.Generator`, a string …) -/
+  /-- `True` / `False`: an `int` for `isinstance`, not for `type(x) == int` -/
+  | bool (b : Bool)
+  /-- anything else (`np.int64`, `float`, `np.random.Generator`, a string …) -/
   | other
 deriving DecidableEq, Repr
 
@@ -291,8 +448,10 @@ def seedState (seed : Int) : Int := seed * 1000003 + 12345
 def testHolds (t : String) : RsArg → Option Bool
   | a =>
     if t == "x is None" then some (match a with | .none => true | _ => false)
-    else if t == "type(x) == int" || t == "type(x) is int" || t == "isinstance(x, int)" then
+    else if t == "type(x) == int" || t == "type(x) is int" then
       some (match a with | .int _ => true | _ => false)
+    else if t == "isinstance(x, int)" then
+      some (match a with | .int _ => true | .bool _ => true | _ => false)
     else if t == "type(x) == np.random.RandomState" || t == "isinstance(x, np.random.RandomState)" then
       some (match a with | .inst _ => true | _ => false)
     else if t == "else" then some true
@@ -308,6 +467,8 @@ def branchResult (r : String) (a : RsArg) (w : World) : Option (Except PyErr (Ge
       if 0 ≤ s ∧ s < 4294967296 then
         some (.ok ({ id := w.next, state := seedState s }, { w with next := w.next + 1 }))
       else some (.error .valueError)
+    | .bool b =>      -- RandomState(True) is RandomState(1)
+      some (.ok ({ id := w.next, state := seedState (if b then 1 else 0) }, { w with next := w.next + 1 }))
     | _ => Option.none
   else if r == "same" then
     match a with
